@@ -42,6 +42,10 @@ type Writer struct {
 	byteVal   byte
 	validBits int
 
+	// err is the first error of the underlying writer.  After it the bit
+	// buffer is in an undefined state, so Write and Close only report it.
+	err error
+
 	count2D int
 }
 
@@ -85,6 +89,9 @@ func (w *Writer) Close() error {
 	if w.closed {
 		return nil
 	}
+	if w.err != nil {
+		return w.err
+	}
 
 	if w.K < 0 && !w.IgnoreEndOfBlock {
 		// Group 4 EOFB: 000000000001000000000001
@@ -114,6 +121,9 @@ func (w *Writer) Close() error {
 }
 
 func (w *Writer) Write(p []byte) (n int, err error) {
+	if w.err != nil {
+		return 0, w.err
+	}
 	for len(p) > 0 {
 		k := min(w.lineBytes-len(w.line), len(p))
 		w.line = append(w.line, p[:k]...)
@@ -149,6 +159,7 @@ func (w *Writer) writeBits(code uint32, length uint8) error {
 
 		if w.validBits >= 8 {
 			if err := w.w.WriteByte(w.byteVal); err != nil {
+				w.err = err
 				return err
 			}
 			w.byteVal = 0
@@ -161,12 +172,17 @@ func (w *Writer) writeBits(code uint32, length uint8) error {
 func (w *Writer) flushBits() error {
 	if w.validBits > 0 {
 		if err := w.w.WriteByte(w.byteVal); err != nil {
+			w.err = err
 			return err
 		}
 		w.byteVal = 0
 		w.validBits = 0
 	}
-	return w.w.Flush()
+	if err := w.w.Flush(); err != nil {
+		w.err = err
+		return err
+	}
+	return nil
 }
 
 func (w *Writer) writeRow() error {
